@@ -139,15 +139,25 @@ def spec_item(rec, item):
         rec.viol(f'json-raises:{type(e).__name__}/compact={compact}/{base}', f'{lit!r}: {e}', trd); ok = False
     # lookups by decision point, id and name return the decision made there
     try:
-      by_dp = dna.to_dict(key_type='dna_spec', value_type='dna')
+      # keys: every subchoice decision point AND every multi-choice as a whole
+      by_dp = dna.to_dict(key_type='dna_spec', value_type='dna', multi_choice_key='both')
       multi = repeated_points(dna)
-      for dp, val in by_dp.items():
-        got = dna[dp]
-        if not _eqv(got, val) and not multi:
-          rec.viol(f'lookup-by-decision-point/{base}', f'{lit!r}[{dp.id.path!r}] gives {got!r}, the decision there is {val!r}', trd); ok = False
-        got = dna[dp.id]
-        if not _eqv(got, val) and not multi:
-          rec.viol(f'lookup-by-id/{base}', f'{lit!r}[{dp.id.path!r}] gives {got!r}, the decision there is {val!r}', trd); ok = False
+
+      def point_lookups(when):
+        nonlocal ok
+        for dp, val in by_dp.items():
+          got = dna[dp]
+          if not _eqv(got, val) and not multi:
+            rec.viol(f'lookup-by-decision-point{when}/{base}', f'{lit!r}[{dp.id.path!r}] gives {got!r}, the decision there is {val!r}', trd); ok = False
+          got = dna[dp.id]
+          if not _eqv(got, val) and not multi:
+            rec.viol(f'lookup-by-id{when}/{base}', f'{lit!r}[{dp.id.path!r}] gives {got!r}, the decision there is {val!r}', trd); ok = False
+
+      point_lookups('')
+      if names:
+        first_names = repr(dna.named_decisions)
+        if repr(dna.named_decisions) != first_names:
+          rec.viol(f'named-decisions-not-repeatable/{base}', f'{lit!r}: named_decisions differs between two reads', trd); ok = False
       if names:
         by_name = dna.to_dict(key_type='name_or_id', value_type='dna', multi_choice_key='parent')
         for name, val in by_name.items():
@@ -158,6 +168,10 @@ def spec_item(rec, item):
             got = got[0] if len(got) == 1 and not isinstance(val, list) else got
           if not _eqv(got, val) and not multi:
             rec.viol(f'lookup-by-name/{base}', f'{lit!r}[{name!r}] gives {got!r}, to_dict says {val!r}', trd); ok = False
+        # the lookups by decision point / id give the same answers after the name table was built and read
+        point_lookups('-after-name-lookups')
+        if repr(dna.named_decisions) != first_names:
+          rec.viol(f'named-decisions-not-repeatable/{base}', f'{lit!r}: named_decisions changed after lookups', trd); ok = False
     except Exception as e:  # pylint: disable=broad-except
       rec.viol(f'lookup-raises:{type(e).__name__}/{base}', f'{lit!r}: {e}', trd); ok = False
     if ok:
@@ -185,10 +199,15 @@ def spec_item(rec, item):
     rec.trans += 1
     aligned(x, spec, rec, sname.split('[')[0], base, dict(tr, start=sname))
     for p1, f1 in producers:
+      sig_before = binding_signature(x)
       try:
         y = f1(x)
       except Exception as e:  # pylint: disable=broad-except
         rec.viol(f'producer-raises/{p1}/{base}', f'{p1} on {x!r}: {type(e).__name__}: {e}', dict(tr, start=sname)); continue
+      if binding_signature(x) != sig_before:
+        rec.viol(f'producer-modified-its-input/{p1}/{base}', f'{p1} on {x!r}: the source DNA (values or the decision points its nodes '
+                 f'are bound to) changed', dict(tr, start=sname))
+        aligned(x, spec, rec, f'source-after-{p1}', base, dict(tr, start=sname))
       if y is None:
         continue
       rec.trans += 1
@@ -203,6 +222,18 @@ def spec_item(rec, item):
             continue
           rec.trans += 1
           aligned(z, spec, rec, f'{p2}', base, dict(tr, start=sname, chain=[p1, p2]))
+
+
+def binding_signature(dna):
+  """Values and bound decision points of every node (by identity), in tree order."""
+  out = []
+
+  def walk(n, path):
+    out.append((tuple(path), n.value, id(n.spec)))
+    for i, c in enumerate(n.children):
+      walk(c, path + [i])
+  walk(dna, [])
+  return out
 
 
 def _from_reordered(x, spec):
